@@ -80,7 +80,9 @@ def oracle_case(spec, evs, res, twin_res, secret):
                 if row is not None and row["kind"] == "KCccd":
                     # accepted = the server stored the configuration: Write Response sent / no error PDU for a
                     # command (a 'subscribed' hook raising afterwards does not undo it)
-                    accepted = (st["out"][:1] == ["13"]) if r[0] == "Write" else (st["out"] == [])
+                    # (notifications emitted by a hook that updates a characteristic are not answers)
+                    rsp = [p for p in st["out"] if p[:2] not in ("1b", "1d")]
+                    accepted = (rsp[:1] == ["13"]) if r[0] == "Write" else (rsp == [])
                     if str(r[1]) in st["vals"]:
                         cccd_val[r[1]] = bytes.fromhex(st["vals"][str(r[1])])
                     if accepted and len(r[2]) <= 2:
